@@ -35,8 +35,6 @@ def generate(h):
     sizes = [int(s) for _, s in rows]
     n_nodes = h.find(HDR, r"enum\s*\{\s*amountOfInternalCacheNodes\s*=\s*(\d+)\s*\}", "amountOfInternalCacheNodes")
     bound = h.find(CPP, r"bool\s+SimpleStringInternalCache::isCached\(size_t size\)\s*\{\s*return\s+size\s*<=\s*(\d+)\s*;\s*\}", "isCached bound (size <= N)")
-    if not re.search(r"for\s*\(size_t i = 0; i < amountOfInternalCacheNodes; i\+\+\)\s*if\s*\(size <= cache_\[i\]\.size_\)\s*return i;", src):
-        h.errors.append("C18: getIndexForCache is no longer `first i with size <= cache_[i].size_`")
     blk = struct_size(h, src, "SimpleStringMemoryBlock")
     node = struct_size(h, src, "SimpleStringInternalCacheNode")
     if n_nodes is None or bound is None:
